@@ -327,3 +327,43 @@ Print Assumptions c08_code_close_is_model.
 Theorem c08_code_left_usize : forall left, left < 18446744073709551616 -> gen_read_left_usize left = left.
 Proof. exact gen_read_left_usize_spec. Qed.
 Print Assumptions c08_code_left_usize.
+
+(* ================================================================== the readers' code itself (whole functions translated from the source) *)
+(** [theories/Gen2.v] is regenerated on every run by tools/rs2coq2.py from src/body.rs ([BodyReader::read], [read_limit],
+    [read_unlimit], [read_chunked], the queries); proofs/Gen2_equiv_body.v and Gen2_equiv_reader_chunked.v prove the translation
+    equivalent to the model for every reader state, input and output buffer (declared lengths below 2^64, which is what the parser
+    of Content-Length yields).  The two statements below are c08_len_step / c08_close_step about the code: exactly
+    min(input, output room, remaining) resp. min(input, output room) bytes are copied to the front of the output buffer, the rest of
+    the buffer is untouched, and the remaining length counts down by exactly that.  Trusted: the translator. *)
+From Hoot Require Import GenLib Gen2.
+From Hoot.proofs Require Import Gen2_equiv_body Gen2_equiv_reader_chunked Gen2_transport.
+Theorem c08_code_read_equiv : forall r src dst stop,
+  limit_fits r src dst -> rd_rel dst (gen_br_read r src dst stop) (reader_read r src (len dst) stop).
+Proof. exact gen_br_read_equiv. Qed.
+Theorem c08_code_len_step : forall lft src dst stop,
+  lft < U64_LIMIT ->
+  let n := N.min (N.min (len src) (len dst)) lft in
+  gen_br_read (RLength lft) src dst stop = Ok (RLength (lft - n), take n src ++ drop (len (take n src)) dst, (n, len (take n src))).
+Proof.
+  intros lft src dst stop Hl n. apply gen_read_ok_of_model; [left; exact Hl|]. reflexivity.
+Qed.
+Theorem c08_code_close_step : forall src dst stop,
+  let n := N.min (len src) (len dst) in
+  gen_br_read RClose src dst stop = Ok (RClose, take n src ++ drop (len (take n src)) dst, (n, len (take n src))).
+Proof.
+  intros src dst stop n. apply gen_read_ok_of_model; [exact I|]. reflexivity.
+Qed.
+Theorem c08_code_is_ended : forall r, gen_br_is_ended r = reader_is_ended r.
+Proof. exact gen_br_is_ended_eq. Qed.
+Theorem c08_code_body_mode : forall r, gen_br_body_mode r = reader_mode r.
+Proof. exact gen_br_body_mode_eq. Qed.
+Example c08_code_nonvacuous :
+  gen_br_read (RLength 3) (s2b "abcdef") [0; 0; 0; 0; 0] false = Ok (RLength 0, s2b "abc" ++ [0; 0], (3, 3))
+  /\ gen_br_read RClose (s2b "abcdef") [0; 0] false = Ok (RClose, s2b "ab", (2, 2)).
+Proof. vm_compute. split; reflexivity. Qed.
+Print Assumptions c08_code_read_equiv.
+Print Assumptions c08_code_len_step.
+Print Assumptions c08_code_close_step.
+Print Assumptions c08_code_is_ended.
+Print Assumptions c08_code_body_mode.
+Print Assumptions c08_code_nonvacuous.
